@@ -32,6 +32,7 @@ def run(ctx: Ctx):
     check_status_use(ctx)
     check_simplex_verdicts(ctx)
     check_interior(ctx)
+    check_pivot_thresholds(ctx)
     check_sign_units(ctx, "simplex", "solve_lp", ["_extract"])
     check_sign_units(ctx, "interior_point", "solve_lp_interior", [])
     generic_sweeps(ctx)
@@ -148,6 +149,27 @@ def check_simplex_verdicts(ctx: Ctx):
                 if isinstance(x, ast.Assign) and isinstance(x.targets[0], ast.Tuple) and isinstance(x.value, ast.Call) and repo.resolve_call(f, x.value) is p2:
                     src = x.targets[0].elts[0].id
             ctx.ob("C03-O2", "R5 PAIRING", f, "status handed to _extract is the status of the final phase-2 run", isinstance(a, ast.Name) and a.id == src, "", node=n)
+
+
+def check_pivot_thresholds(ctx: Ctx):
+    """The ratio test may only pick a row the pivot routine will actually pivot on: _pivot() silently skips an element
+    below eps while the caller still relabels the basis, so the row candidates must clear the same threshold."""
+    p2 = ctx.func("simplex", "_phase2")
+    pv = ctx.func("simplex", "_pivot")
+    skip = [n for n in own_nodes(pv.node) if isinstance(n, ast.If) and "pivot_val" in ast.unparse(n.test) and any(isinstance(x, ast.Return) for x in n.body)]
+    ctx.require(len(skip) == 1, "pivot-skip guard not found in _pivot")
+    st = skip[0].test
+    thr = ast.unparse(st.comparators[0]) if isinstance(st, ast.Compare) else "?"
+    cands = [n for n in own_nodes(p2.node) if isinstance(n, ast.If) and ast.unparse(n.test).startswith("matrix[i][enter] >")]
+    ctx.require(len(cands) == 1, "ratio-test candidate condition not found in _phase2")
+    ct = cands[0].test
+    ok = isinstance(ct, ast.Compare) and isinstance(ct.ops[0], ast.Gt) and ast.unparse(ct.comparators[0]) == thr and ast.unparse(st) == f"abs(pivot_val) < {thr}"
+    ctx.ob("C03-O5", "R18 SIBLING-AGREEMENT (expression)", p2, "ratio-test candidates clear the threshold below which _pivot skips the pivot", ok, f"candidates `{ast.unparse(ct)}` vs skip `{ast.unparse(st)}`: an element in between is chosen, not pivoted, and the basis is relabelled anyway - the entering column's negative reduced cost is never looked at again", node=cands[0])
+    ent = [n for n in own_nodes(p2.node) if isinstance(n, ast.If) and "matrix[-1][j]" in ast.unparse(n.test)]
+    ok2 = len(ent) == 1 and "matrix[-1][j] < -eps" in ast.unparse(ent[0].test) and "j not in basis_set" in ast.unparse(ent[0].test)
+    ctx.ob("C03-O5", "R18 SIBLING-AGREEMENT (expression)", p2, "entering column: smallest non-basic index with reduced cost below -eps (Bland)", ok2 and "for j in range(n_cols - 1)" in ast.unparse(p2.node), "", node=p2.node)
+    t = ast.unparse(p2.node)
+    ctx.ob("C03-O5", "R16 PAIRED-EFFECTS", p2, "after the pivot the basis bookkeeping is updated for exactly the pivoted row and column", "matrix = _pivot(matrix, m, leave, enter, eps)" in t and "basis_set.discard(basis[leave])" in t and "basis[leave] = enter" in t and "basis_set.add(enter)" in t, "", node=p2.node)
 
 
 def _phase1_status_var(f) -> str:
@@ -386,6 +408,11 @@ def _v_ip_stale_objective(tree):
     M.replace_expr(g, lambda e: M.src_is(e, "sum((obj[j] * solution[j] for j in range(n)))"), M.expr("sum((c[j] * y[j] for j in range(n)))"))
 
 
+def _v_ratio_threshold(tree):
+    g = M.find_func(tree, "_phase2")
+    M.replace_expr(g, lambda e: M.src_is(e, "matrix[i][enter] > eps"), M.expr("matrix[i][enter] > 0"))
+
+
 def _t_reformat(tree):
     pass
 
@@ -410,6 +437,7 @@ VARIANTS = [
     M.Variant("interior point OPTIMAL after the loop", IP, _v_ip_optimal_after_loop, "C03-O3"),
     M.Variant("interior point FEASIBLE with 1.0 tolerance", IP, _v_ip_loose_feasible, "C03-O3"),
     M.Variant("interior point objective from another vector", IP, _v_ip_stale_objective, "C03-O3"),
+    M.Variant("ratio test accepts elements below the pivot-skip threshold (seed C03-A)", SX, _v_ratio_threshold, "C03-O5"),
     M.Variant("twin: reformat", SX, _t_reformat, None),
     M.Variant("twin: reformat interior", IP, _t_reformat, None),
     M.Variant("twin: rename status locals", SX, _t_rename, None),
